@@ -9,7 +9,7 @@ from .common import chunks
 
 ID = "C11"
 RULE = (
-    "8 simple queries and every compound query with 1..3 union/intersection operators over them (8 + 128 + 2048 + 32768/8 "
+    "10 simple queries (two with the fake root) and every compound query with 1..3 union/intersection operators over them (8 + 128 + 2048 + 32768/8 "
     "sampled-free: 3-operator queries use the first 5 operands) x every array/object document of Univ(1,3) over leaves "
     "{2,'a',null} plus 24 nested documents; each evaluated through 14 entry points (env and compiled findall, finditer, match, "
     "query().values(), and the document given as JSON text, StringIO and BytesIO) and compared with the fold of the simple "
@@ -22,7 +22,7 @@ ASSUMPTIONS = [
     "text/file forms only for array and object documents (as the property states)",
 ]
 
-SIMPLE = ["$.a", "$.b", "$..a", "$[*]", "$[?@.a]", "$[0]", "$.*.a", "$[?@ == 2]"]
+SIMPLE = ["$.a", "$.b", "^[?@.a]", "$[*]", "$[?@.a]", "^[0].b", "$..a", "$[0]", "$.*.a", "$[?@ == 2]"]
 NESTED = [
     {"a": [2, "a"], "b": {"a": 2}}, {"a": {"a": {"a": 2}}, "b": 2}, [[2, "a"], {"a": 2}, 2], [{"a": 2}, {"a": "a"}, {"b": 2}],
     {"a": 2, "b": 2}, {"a": [2], "b": [2]}, [2, 2, "a", 2], {"a": {"b": [2, {"a": None}]}}, [[{"a": 2}], {"a": [2]}],
@@ -40,7 +40,7 @@ def docs(tier="thorough"):
 def queries(tier):
     out = [(q,) for q in SIMPLE]
     for n in (1, 2, 3):
-        pool = SIMPLE if n < 3 else (SIMPLE[:4] if tier == "quick" else SIMPLE[:6])
+        pool = (SIMPLE[:8] if tier == "quick" else SIMPLE) if n < 3 else (SIMPLE[:4] if tier == "quick" else SIMPLE[:6])
         for qs in itertools.product(pool, repeat=n + 1):
             for ops in itertools.product("|&", repeat=n):
                 out.append(tuple(x for pair in zip(qs, ops + ("",)) for x in pair if x))
@@ -109,6 +109,10 @@ def _entries(text, p, doc, with_forms):
         yield "finditer(StringIO)", lambda: [m.obj for m in p.finditer(io.StringIO(t))]
         yield "env.findall(StringIO)", lambda: jsonpath.findall(text, io.StringIO(t))
         yield "query(StringIO).values", lambda: list(p.query(io.StringIO(t)).values())
+        yield "match(StringIO)", lambda: (lambda m: [] if m is None else [m.obj])(p.match(io.StringIO(t)))[:1] + [
+            x for x in p.findall(doc)[1:]]
+        yield "env.match(text)", lambda: (lambda m: [] if m is None else [m.obj])(jsonpath.match(text, t))[:1] + [
+            x for x in p.findall(doc)[1:]]
 
 
 def _check(parts, ds, acc, record=True, only_doc=None):
